@@ -1287,9 +1287,23 @@ def xyz_files_standin(ctx):
             fails.append({"input": {"interior_file": "water (3 atoms)", "exterior_file": "CO at 3-4 A", "point": pts[k].tolist()},
                           "observed": {"weight": float(w[k]), "interior/(interior+exterior)": float(want[k]), "exterior share": float(1 - want[k])},
                           "clause": "from_xyz_files(f1, f2): the weight is the share of the atoms of f1", "key": "from_xyz_files"})
+        # the file is read when asked for: rewriting the same path and loading again gives the atoms now in the file
+        open(f1, "w").write("2\nHF\nF 0.1 0.0 0.2\nH 1.0 0.1 0.2\n")
+        a2 = PromoleculeDensity.from_xyz_file(f1)
+        sw2 = StockholderWeight.from_xyz_files(f1, f2)
+        ref = PromoleculeDensity(([9, 1], [[0.1, 0.0, 0.2], [1.0, 0.1, 0.2]]))
+        q = pts[:60]
+        q = q[(np.linalg.norm(q - np.array([0.1, 0.0, 0.2], dtype=np.float32), axis=1) > 0.3) & (np.linalg.norm(q - np.array([1.0, 0.1, 0.2], dtype=np.float32), axis=1) > 0.3)]
+        r2, rr = np.asarray(a2.rho(q), dtype=float), np.asarray(ref.rho(q), dtype=float)
+        w2 = np.asarray(sw2.weights(q), dtype=float)
+        rbq = np.asarray(b.rho(q), dtype=float)
+        evals += 2 * len(q)
+        if not (np.allclose(r2, rr, rtol=1e-5) and np.allclose(w2, rr / (rr + rbq), atol=5e-5)):
+            fails.append({"input": {"history": "write a.xyz (water), load it, overwrite a.xyz with HF, load it again"}, "observed": "the second load does not describe the atoms now in the file",
+                          "clause": "from_xyz_file / from_xyz_files read the file as it is when called", "key": "from_xyz_reload"})
     finally:
         for f in os.listdir(d):
             os.unlink(os.path.join(d, f))
         os.rmdir(d)
-    ctx.add_bounded("density.StockholderWeight.from_xyz_files/bounded/interior_is_first_file", "two different xyz files, 400 seeded points at least 0.3 A from every nucleus", evals, evals, fails,
+    ctx.add_bounded("density.StockholderWeight.from_xyz_files/bounded/interior_is_first_file", "two different xyz files, 400 seeded points at least 0.3 A from every nucleus; then the first file rewritten and loaded again", evals, evals, fails,
                     rule="points evaluated")
